@@ -64,3 +64,24 @@ From RS Require Import Flow CircStmts FlowFacts3.
 Theorem C06_circulation_feasible : stmt_circulation_feasible_loaded.
 Proof. exact circulation_feasible_loaded. Qed.
 Print Assumptions C06_circulation_feasible.
+
+(** the transition optimisation (TOpt.v, compared with the implementation on every run) neither panics nor runs forever:
+    on a transition with exact bookkeeping over vehicles that have tours, generating its neighbourhood — vehicle moves,
+    cycle look-ups, 3-opt indexing, cycle replacement — never panics; the cycle 3-opt terminates within |cycle| * D + 1
+    iterations because every accepted step lowers the exact counter, which is bounded below by the tours' own counters;
+    and for the whole search there are fuel bounds beyond which no run, whatever the parallel minimiser picks, fails to
+    return (D bounds the depot-to-depot transfers; it exists for every network without negative distances: HYP3 on every
+    run). The hang of seeded change C06c is exactly the failure of the hypothesis "counter exact" after a wrong update. *)
+From RS Require Import TOpt TOptStmts2 TOptFacts2 TOptFacts3.
+Theorem C06_optimiser_neighbourhood_never_panics : forall nw tours, stmt_topt_neighbors_no_panic nw tours.
+Proof. exact topt_neighbors_no_panic. Qed.
+Print Assumptions C06_optimiser_neighbourhood_never_panics.
+Theorem C06_cycle_three_opt_terminates : forall nw tours, stmt_cyc_tsp_terminates nw tours.
+Proof. exact cyc_tsp_terminates. Qed.
+Print Assumptions C06_cycle_three_opt_terminates.
+Theorem C06_optimiser_always_returns : forall nw tours, stmt_topt_run_total nw tours.
+Proof. exact topt_run_total. Qed.
+Print Assumptions C06_optimiser_always_returns.
+Theorem C06_transfers_bounded : stmt_transfers_bounded.
+Proof. exact transfers_bounded_thm. Qed.
+Print Assumptions C06_transfers_bounded.
